@@ -106,7 +106,7 @@ PROPERTIES = {
         "min_obligations": 2000,
     },
     "C17": {
-        "contracts": [align.SortAxis, align.TakeAxis, missing.CompressAxis, missing.FillNa, missing.SetNa, missing.DropNa1D, missing.DropNaND, missing.DropNaMinvalid, missing.SortAxisKey],
+        "contracts": [align.SortAxis, align.TakeAxis, missing.CompressAxis, missing.FillNa, missing.SetNa, missing.DropNa1D, missing.DropNaND, missing.DropNaMinvalid, missing.SortAxisKey, missing.SelectNative],
         "level": "proof",
         "min_obligations": 200,
     },
